@@ -24,8 +24,8 @@ TRUSTED_BASE = [
     "unit, list, prod, sumbool and Extract Inlined Constant for andb, orb, negb, fst, snd); no "
     "Extract Constant of ours; Z/N/positive/Q/nat stay Coq datatypes",
     "OCaml 4.13.1 compiler and the driver coq/runner/main.ml (line parser/printer)",
-    "correspondence harness (harness/*.py): generators, implementation runner, diff",
-    "fact translator harness/translate.py (regenerates coq/theories/Src/*.v from /repo)",
+    "correspondence harness (harness/*.py): generators, implementation runner, comparison (the model is hand "
+    "written; the tie to /repo is this per-run behavioural correspondence, there is no source translator)",
     "NumPy element arithmetic, hpgeom, astropy FITS: modelled/oracle, not verified",
 ]
 
@@ -229,3 +229,38 @@ def write_replay(pid, payload):
     with open(path, 'w') as f:
         json.dump(payload, f, indent=1, default=str)
     return path
+
+
+FORBIDDEN = r"Admitted|\badmit\b|^\s*Axiom\b|^\s*Parameter\b|^\s*Conjecture\b|Unset Guard|bypass_check|type-in-type|impredicative-set|Admit Obligations"
+
+
+def scan_sources():
+    """grep the whole development for declarations that would weaken the proofs"""
+    import re
+    hits = []
+    root = os.path.join(COQ, 'theories')
+    for dp, dn, fn in os.walk(root):
+        for f in fn:
+            if f.endswith('.v'):
+                for k, line in enumerate(open(os.path.join(dp, f)), 1):
+                    if re.search(FORBIDDEN, line) and not line.lstrip().startswith('(*'):
+                        hits.append('%s:%d: %s' % (os.path.relpath(os.path.join(dp, f), root), k, line.strip()[:100]))
+    return hits
+
+
+def coqchk(pid):
+    """independent re-check of the property module and everything it depends on"""
+    rc, out = sh('timeout 2400 coqchk -silent -o -Q theories HS HS.Properties.%s 2>&1 | grep -v "^WARNING conda"' % pid,
+                 cwd=COQ, timeout=2500)
+    ax = None
+    lines = out.splitlines()
+    for i, l in enumerate(lines):
+        if l.startswith('* Axioms:'):
+            ax = l.split(':', 1)[1].strip()
+            j = i + 1
+            while j < len(lines) and lines[j].strip() and not lines[j].startswith('*'):
+                ax += ' ' + lines[j].strip()
+                j += 1
+    ok = (ax == '<none>') and 'type-in-type: <none>' in out and 'unsafe (co)fixpoints: <none>' in out and \
+        'positivity is assumed: <none>' in out
+    return dict(ok=ok, axioms=ax, tail=out[-600:])
